@@ -364,6 +364,24 @@ fn main() {
             }
         }
     }
+    // zero-padded numerals (a numeral longer than an i64 has digits is still a well-formed integer)
+    for pad in [1usize, 5, 18, 19, 20, 21, 25, 40] {
+        for (sign, n) in [("", 0i128), ("", 7), ("-", 90), ("+", 1), ("", 9_223_372_036_854i128)] {
+            for unit in [0usize, 3, 6, 8] {
+                let mut t = term(sign, n, unit);
+                t.text = format!("{sign}{}{n}{}", "0".repeat(pad), UNIT_NAMES[unit]);
+                let lead = term("", 2, 9);
+                let tail = term("-", 3, 5);
+                for terms in [vec![&t], vec![&lead, &t, &tail]] {
+                    c.states += 1;
+                    c.transitions += 1;
+                    c.fam("timedelta-padded").states += 1;
+                    c.nontrivial("timedelta-padded", hash_bytes(format!("{pad}{sign}{n}{unit}{}", terms.len()).as_bytes()));
+                    check_wellformed(&terms, "timedelta-padded", &mut c);
+                }
+            }
+        }
+    }
     total.merge(c);
     // (c) date-time totality over short strings, round trips, edits
     let dwords = strings_upto(&DT_ALPHA, dt_len);
